@@ -217,7 +217,8 @@ def gen_cases(rng, tier):
     big = tier != 'quick'
 
     def inputs(n, tool, presences=None, dens=None):
-        return [_gen_input(rng, i, (presences[i] if presences else {}), tool, dens) for i in range(n)]
+        tar_p = rng.choice([0.0, 0.4, 0.4, 1.0])          # all folders / mixed / all tar archives
+        return [_gen_input(rng, i, (presences[i] if presences else {}), tool, dens, tar_p) for i in range(n)]
 
     # 1. every singleton skip list, both entry points, overlapping inputs
     for s in SKIPPABLE:
@@ -267,7 +268,7 @@ def gen_cases(rng, tier):
         one = inputs(1, False, dens=0.8)
         _mk(cases, 'lib', [one[0], json.loads(json.dumps(one[0]))], [], st, origin='same-twice')
     # 6. random
-    n_rand = 110 if not big else 1500
+    n_rand = 110 if not big else 1200
     for _ in range(n_rand):
         mode = 'tool' if rng.random() < 0.4 else 'lib'
         n = rng.choice([1, 2, 2, 3, 3, 4])
@@ -613,46 +614,54 @@ def run_impl(case, ctx):
     obs = {'stores': stores}
     exc = None
     merged = None
-    cwd_before = sorted(os.listdir(os.getcwd()))
-    if case['mode'] == 'lib':
-        tars = [get_all_tar_handlers(r) for r in dirs]
-        inputs_before = [_canon(k) for k in kobjs]
-        try:
-            from kapture.algo.merge_keep_ids import merge_keep_ids
-            merged = merge_keep_ids(kobjs, _skip_types(case['skip']), dirs, tars,
-                                    out if case['has_out'] else '', strategy)
-        except Exception as e:  # the implementation's exceptions are observed outcomes
-            exc = e
-        finally:
-            for t in tars:
-                t.close()
-        inputs_after = [_canon(k) for k in kobjs]
-        obs['inputs'] = inputs_before
-        obs['inputs_unchanged'] = inputs_before == inputs_after
-        if not obs['inputs_unchanged']:
-            obs['inputs_diff'] = _first_diff(inputs_before, inputs_after)
-        if merged is not None:
-            obs['output'] = _canon(merged)
-    else:
-        loaded = []
-        for r in dirs:
-            with get_all_tar_handlers(r) as th:
-                loaded.append(_canon(kapture_from_dir(r, tar_handlers=th)))
-        obs['inputs'] = loaded
-        obs['inputs_unchanged'] = True
-        try:
-            import kapture_merge
-            kapture_merge.merge_kaptures(dirs, out, True, strategy, list(case['skip']), True)
-            merged = True
-        except Exception as e:
-            exc = e
-        if merged:
-            obs['output'] = _canon(_read_out_dir(out))
+    # run inside a private, empty working directory: a merge without output path must not write relative files
+    old_cwd = os.getcwd()
+    private_cwd = os.path.join(base, 'cwd')
+    os.makedirs(private_cwd)
+    os.chdir(private_cwd)
+    try:
+        if case['mode'] == 'lib':
+            tars = [get_all_tar_handlers(r) for r in dirs]
+            inputs_before = [_canon(k) for k in kobjs]
+            try:
+                from kapture.algo.merge_keep_ids import merge_keep_ids
+                merged = merge_keep_ids(kobjs, _skip_types(case['skip']), dirs, tars,
+                                        out if case['has_out'] else '', strategy)
+            except Exception as e:  # the implementation's exceptions are observed outcomes
+                exc = e
+            finally:
+                for t in tars:
+                    t.close()
+            inputs_after = [_canon(k) for k in kobjs]
+            obs['inputs'] = inputs_before
+            obs['inputs_unchanged'] = inputs_before == inputs_after
+            if not obs['inputs_unchanged']:
+                obs['inputs_diff'] = _first_diff(inputs_before, inputs_after)
+            if merged is not None:
+                obs['output'] = _canon(merged)
+        else:
+            loaded = []
+            for r in dirs:
+                with get_all_tar_handlers(r) as th:
+                    loaded.append(_canon(kapture_from_dir(r, tar_handlers=th)))
+            obs['inputs'] = loaded
+            obs['inputs_unchanged'] = True
+            try:
+                import kapture_merge
+                kapture_merge.merge_kaptures(dirs, out, True, strategy, list(case['skip']), True)
+                merged = True
+            except Exception as e:
+                exc = e
+            if merged:
+                obs['output'] = _canon(_read_out_dir(out))
+        cwd_clean = os.listdir(private_cwd) == []
+    finally:
+        os.chdir(old_cwd)
     trees_after = [_tree(r, move) for r in dirs]
     obs['dirs_unchanged'] = trees_before == trees_after
     if not obs['dirs_unchanged']:
         obs['dirs_diff'] = _first_diff(trees_before, trees_after)
-    obs['cwd_unchanged'] = cwd_before == sorted(os.listdir(os.getcwd()))
+    obs['cwd_unchanged'] = cwd_clean
     if exc is not None:
         obs['outcome'] = 'raise'
         obs['exc_kind'] = _classify_exc(exc, case['strategy'])
@@ -932,9 +941,10 @@ def nontrivial(case, obs):
 
 def classify(case, obs):
     sk = 'skip0' if not case['skip'] else ('skip1' if len(case['skip']) == 1 else 'skipN')
-    tar = any(f.get('tar') for d in case['inputs'] for k in FEAT_DIR for f in (d[k] or {}).values())
+    flags = [bool(f.get('tar')) for d in case['inputs'] for k in FEAT_DIR for f in (d[k] or {}).values()]
+    store = 'nofeat' if not flags else ('tar' if all(flags) else ('mixed' if any(flags) else 'dir'))
     res = obs['outcome'] if obs['outcome'] == 'ret' else 'raise-' + obs['exc_kind']
-    return f'{case["mode"]}/n={len(case["inputs"])}/{case["strategy"]}/{sk}/{"tar" if tar else "dir"}/{res}'
+    return f'{case["mode"]}/n={len(case["inputs"])}/{case["strategy"]}/{sk}/{store}/{res}'
 
 
 def describe(case, obs):
